@@ -1,5 +1,7 @@
 import NasimModel.Model.Wire
 import NasimModel.Model.LoaderWire
+import NasimModel.Model.GenWire
+import NasimModel.Model.Plan
 /-!
 Driver: reads one request per line on stdin, answers one line per query on stdout.
 Scenario-definition lines produce no output. See `NasimModel/Model/Wire.lean` for tokens.
@@ -136,7 +138,16 @@ def handle (c : Cfg) (line : String) : Cfg × Option String :=
           ++ [sep] ++ flatten2 oP.obs
         (c, some (join out))
       | _, _ => (c, some "badq")
+    | "POST15" => (c, some (NASim.Gen.postReply sc rest))
+    | "SAT" =>
+      let plan := findPlan sc
+      (c, some (join ([bi (solvedBy sc plan), (plan.length : Int)] ++ plan.map (fun (i : Nat) => (i : Int)))))
     | "DOC" => (c, some (NASim.Load.docReply rest))
+    | "GEN" =>
+      -- replies with the generated scenario and installs it as the current scenario
+      match NASim.Gen.genReply rest with
+      | (reply, some sc') => ({ c with sc := sc' }, some reply)
+      | (reply, none) => (c, some reply)
     | "E" =>
       match ts with
       | fo :: _ :: ops => (c, some (join (runEnv (Env.make sc (b fo.int)) ops [])))
